@@ -1153,8 +1153,18 @@ def _valid_name(name):
     return True
 
 
+# names met on real wires whatever the library's tables say about them: the RFC 8308 / OpenSSH negotiation indicators
+# that travel inside the kex list, post-quantum hybrids, vendor-suffixed names
+WILD_NAMES = ('ext-info-c', 'ext-info-s', 'kex-strict-c-v00@openssh.com', 'kex-strict-s-v00@openssh.com',
+              'sntrup761x25519-sha512', 'sntrup761x25519-sha512@openssh.com', 'mlkem768x25519-sha256', 'none',
+              'zlib@openssh.com', 'hmac-sha2-256-etm@openssh.com', 'chacha20-poly1305@openssh.com',
+              'aes128-gcm@openssh.com', 'rsa-sha2-512', 'ssh-ed25519-cert-v01@openssh.com',
+              'webauthn-sk-ecdsa-sha2-nistp256@openssh.com', 'curve25519-sha256@libssh.org')
+
+
 def st_name_list(known):
-    sample = st.sampled_from(known)
+    sample = st.one_of(st.sampled_from(known), st.sampled_from(known), st.sampled_from(known), st.sampled_from(known),
+                       st.sampled_from(WILD_NAMES))
     unknown = st.text(alphabet=NAME_ALPHABET, min_size=1, max_size=64)
     short_unknown = st.text(alphabet='abcdefghijklmnopqrstuvwxyz0123456789-@.', min_size=1, max_size=20)
     near = st.builds(_mutate_name, sample, st.integers(0, 5)).filter(_valid_name)
